@@ -937,3 +937,82 @@ theorem item_of_type_range {r : Reader} (inv : Inv r) {typeId a b k : Nat}
     omega
 
 end Tw.Datafile
+
+namespace Tw.Datafile
+
+/-! ### the file-backed reader (`datafile/src/file.rs`) -/
+
+theorem readUds_suffix {c : Bool} {n : Nat} {rest : List UInt8} {u : Option (List UInt8)}
+    {rest' : List UInt8} (h : readUds c n rest = some (u, rest')) : ∃ pre, rest = pre ++ rest' := by
+  unfold readUds at h
+  split at h
+  · split at h
+    · cases h
+    · rename_i b r hb
+      cases h
+      exact ⟨b, (readExact_some hb).2⟩
+  · cases h; exact ⟨[], rfl⟩
+
+/-- an accepted file has a complete header and ends with the reader's data region -/
+theorem new_ok_suffix {bytes : List UInt8} {r : Reader} (h : Reader.new bytes = .ok r) :
+    headerSize ≤ bytes.length ∧ ∃ pre, bytes = pre ++ r.dataRegion := by
+  unfold Reader.new at h
+  split at h
+  · cases h
+  · cases h
+  · rename_i hd hread
+    obtain ⟨_, _, hlen⟩ := Header.read_ok hread
+    refine ⟨hlen, ?_⟩
+    split at h
+    · cases h
+    · cases h
+    · split at h
+      · cases h
+      · simp only at h
+        split at h; · cases h
+        rename_i tb rest1 h1
+        split at h; · cases h
+        rename_i iob rest2 h2
+        split at h; · cases h
+        rename_i dob rest3 h3
+        split at h; · cases h
+        rename_i udb rest4 h4
+        split at h; · cases h
+        split at h; · cases h
+        rename_i ib rest5 h5
+        split at h; · cases h
+        split at h
+        · cases h
+          obtain ⟨p4, e4⟩ := readUds_suffix h4
+          refine ⟨bytes.take headerSize ++ tb ++ iob ++ dob ++ p4 ++ ib, ?_⟩
+          have e0 : bytes = bytes.take headerSize ++ bytes.drop headerSize := (List.take_append_drop _ _).symm
+          rw [(readExact_some h1).2, (readExact_some h2).2, (readExact_some h3).2, e4,
+            (readExact_some h5).2] at e0
+          simp only [List.append_assoc] at e0 ⊢
+          exact e0
+        · cases h
+        · cases h
+
+/-- **Opening a datafile that is embedded in a larger file** (`Reader::new(file)` with the file
+positioned at `start`) behaves exactly like opening the bytes from `start` on by themselves: same
+acceptance, same tables, same data region; the `unwrap` in `ensure_filesize` cannot fail. -/
+theorem fileOpen_eq (file : List UInt8) (start : Nat) :
+    fileOpen file start = Reader.new (file.drop start) := by
+  unfold fileOpen
+  cases h : Reader.new (file.drop start) with
+  | panic s => rfl
+  | err e => rfl
+  | ok r =>
+    obtain ⟨hlen, pre, hpre⟩ := new_ok_suffix h
+    simp only
+    have hs : ¬ file.length < start := by
+      simp only [List.length_drop, headerSize] at hlen; omega
+    rw [if_neg hs]
+    have hsb : (file.drop start).length - r.dataRegion.length = pre.length := by
+      rw [hpre]; simp
+    rw [hsb]
+    have hd : file.drop (start + pre.length) = r.dataRegion := by
+      rw [← List.drop_drop, hpre]; exact List.drop_left' rfl
+    rw [hd]
+
+end Tw.Datafile
